@@ -81,9 +81,10 @@ def scan_blocks(path):
 
 
 class Injector:
-    def __init__(self, simplifier, plan=(), trace_all=False, snap=None):
+    def __init__(self, simplifier, plan=(), trace_all=False, snap=None, plan_fn=None):
         self.S = simplifier
         self.plan = {int(k): int(j) for k, j in plan}
+        self.plan_fn = plan_fn    # optional (k, function name, with-line) -> j or None, consulted when k is not in plan
         self.trace_all = trace_all
         self.snap = snap or (lambda frame, info: None)
         self.k = 0
@@ -120,6 +121,8 @@ class _Block:
         self.hl = info.get("handler_lines", (None, None))
         inj.blocks.append(self.rec)
         self.j = inj.plan.get(self.k)
+        if self.j is None and inj.plan_fn is not None:
+            self.j = inj.plan_fn(self.k, frame.f_code.co_name, frame.f_lineno)
         self.traced = self.j is not None or inj.trace_all
         if self.traced:
             self.rec["j"] = self.j
@@ -184,4 +187,9 @@ class _Block:
             return False
         frame.f_trace = None
         sys.settrace(None)
+        if et is None:
+            self.rec["post"] = self.inj.snap(frame, self.rec)     # the body ran to its end
+        else:
+            self.rec["exc"] = et.__name__                          # e.g. ValueError raised by check_results' comparison
+            self.rec["post"] = self.inj.snap(frame, self.rec)
         return False
